@@ -42,7 +42,7 @@ Positions == {"top", "field1", "field15", "field16", "field2047", "field2048", "
 HasField(p) == p \in {"field1", "field15", "field16", "field2047", "field2048", "ptrfield", "nested", "slicestruct"}
 CONSTANT LenSweep      \* the container / string lengths swept by the U4 positions
 SweepQuick == (0..4) \cup (118..134) \cup (250..262)
-SweepThorough == 0..400
+SweepThorough == (0..140) \cup (248..264) \cup (380..400)       \* every length up to past the one-byte / two-byte prefix boundary, the next boundary, and long ones
 KindsFor(p) ==
   IF p \in LenPositions THEN {KS("string", "")} ELSE
   {kd \in Kinds :
